@@ -1,6 +1,9 @@
 // h_C07.cpp — harness for C07: Resampling::resample / neff and
 // ResamplingWithPrior::resample called directly.
-// Operands: lw (N x 1 log-weights), state (d x N), mean (d x N), cov (d x d*N),
+// Layout: meta dl, dc, quat (use_quaternion): dim = dl + dc*(quat?4:1), dim_covariance = dl + dc*(quat?3:1).
+// Optional operand lw_first (N1 x 1): one earlier resample call on the SAME object with a set of N1 particles
+// (a different N), so that the 1/N range of the offset must follow the set of each call.
+// Operands: lw (N x 1 log-weights), state (dim x N), mean (dim x N), cov (dim_cov x dim_cov*N),
 // int seed, int draws (number of resample calls on the same object; the last one
 // is reported), kind "prior": ratio (1 x 1), meta init=count|grid (grid: nx, ny).
 // The random offset is mirrored: same engine, same seed, same order of draws.
@@ -47,6 +50,12 @@ static void report(const ParticleSet& res, const VectorXi& parents) {
     vf::out_int("components", res.components);
     vf::out_int("dim_linear", res.dim_linear);
     vf::out_int("dim_circular", res.dim_circular);
+    vf::out_int("use_quaternion", res.use_quaternion ? 1 : 0);
+    vf::out_int("dim", res.dim);
+    vf::out_int("dim_covariance", res.dim_covariance);
+    vf::out_int("state_rows", res.state().rows());
+    vf::out_int("mean_rows", res.mean().rows());
+    vf::out_int("cov_rows", res.covariance().rows());
     vf::out_int("state_cols", res.state().cols());
     vf::out_int("mean_cols", res.mean().cols());
     vf::out_int("cov_cols", res.covariance().cols());
@@ -65,18 +74,30 @@ int main() {
         const long dl = c.mi("dl"), dc = c.mi("dc");
         const unsigned seed = (unsigned)c.integer("seed");
         const long draws = c.has_int("draws") ? c.integer("draws") : 1;
-        ParticleSet cor(N, dl, dc);
+        const bool quat = c.mi("quat") != 0;
+        ParticleSet cor(N, dl, dc, quat);
         fill(cor, c);
         ParticleSet cor_copy(cor);
-        ParticleSet res(N, dl, dc);
+        ParticleSet res(N, dl, dc, quat);
         res.state().setConstant(9.5); res.mean().setConstant(-9.5); res.covariance().setConstant(4.25); res.weight().setConstant(0.125);
         VectorXi parents = VectorXi::Constant(N, -7);
         std::mt19937_64 mirror(seed);
         double u1 = NAN;
         g_init_calls = 0; g_init_size = -1;
         double neff = NAN;
+        // the earlier call with another particle count
+        const long N1 = c.has_mat("lw_first") ? c.mat("lw_first").rows() : 0;
+        ParticleSet first(N1 > 0 ? N1 : 1, dl, dc, quat), first_res(N1 > 0 ? N1 : 1, dl, dc, quat);
+        VectorXi first_par = VectorXi::Constant(N1 > 0 ? N1 : 1, -7);
+        if (N1 > 0) first.weight() = c.mat("lw_first");
         if (c.kind == "plain") {
             Resampling r(seed);
+            if (N1 > 0) {
+                std::uniform_real_distribution<double> d(0.0, 1.0 / N1);
+                (void)d(mirror);
+                vf::Entry e("Resampling::resample");
+                r.resample(first, first_res, first_par);
+            }
             for (long k = 0; k < draws; k++) {
                 std::uniform_real_distribution<double> d(0.0, 1.0 / N);
                 u1 = d(mirror);
@@ -90,6 +111,14 @@ int main() {
             if (c.m("init") == "grid") init.reset(new GridInit((unsigned)c.mi("nx"), (unsigned)c.mi("ny")));
             else init.reset(new CountingInit());
             ResamplingWithPrior r(std::move(init), ratio, seed);
+            if (N1 > 0) {
+                const long np1 = (long)std::floor(N1 * ratio);
+                std::uniform_real_distribution<double> d(0.0, 1.0 / (N1 - np1));
+                (void)d(mirror);
+                vf::Entry e("ResamplingWithPrior::resample");
+                r.resample(first, first_res, first_par);
+                g_init_calls = 0; g_init_size = -1;
+            }
             for (long k = 0; k < draws; k++) {
                 const long np = (long)std::floor(N * ratio);
                 std::uniform_real_distribution<double> d(0.0, 1.0 / (N - np));
